@@ -417,7 +417,10 @@ func c14SwitchComplete(c *Ctx) {
 							continue
 						}
 						for _, e := range an.CondEdges(fn) {
-							if empty, k := an.EmptinessFact(e.Fact, func(v ssa.Value) bool { cc := an.AllExtractOf(v, 1); return cc != nil && cc == ssa.CallInstruction(call) }); k && !empty {
+							if empty, k := an.EmptinessFact(e.Fact, func(v ssa.Value) bool {
+								cc := an.AllExtractOf(v, 1)
+								return cc != nil && cc == ssa.CallInstruction(call)
+							}); k && !empty {
 								for rb := range an.Reach(e.To, nil) {
 									for _, rin := range rb.Instrs {
 										if r, isRet := rin.(*ssa.Return); isRet {
@@ -596,7 +599,6 @@ func (c *Ctx) everySelectionCounted(fn *ssa.Function) {
 	}
 }
 
-
 // c14GateSeesCoercedVariables: the complexity gate is an OperationContextMutator; it evaluates argument values (custom complexity
 // functions receive them) from OperationContext.Variables.  Those must be the coerced variables — with operation-level defaults
 // filled in — that execution will use, otherwise an argument bound to an omitted variable with a large default is costed as if
@@ -628,15 +630,38 @@ func c14GateSeesCoercedVariables(c *Ctx) {
 			}
 		}
 	}
+	// the coercion may live in a same-package helper that receives the operation context: a call of a function that
+	// (transitively, depth 2) stores VariableValues' result into its OperationContext parameter's Variables counts as that store
+	var helperCalls []ssa.Instruction
+	for _, call := range an.CallsIn(fn, func(_ ssa.CallInstruction, ci an.CalleeInfo) bool {
+		return ci.Static != nil && ci.Static.Pkg != nil && ci.Static.Pkg.Pkg.Path() == pkgExecutor && len(ci.Static.Blocks) > 0
+	}) {
+		h := call.Common().StaticCallee()
+		for i, p := range h.Params {
+			if !an.NamedIs(p.Type(), pkgGraphql, "OperationContext") || i >= len(call.Common().Args) {
+				continue
+			}
+			if storesCoercedVariables(h, p, 0) {
+				if _, isCall := call.(*ssa.Call); isCall {
+					helperCalls = append(helperCalls, call)
+				}
+			}
+		}
+	}
 	n := 0
 	for _, call := range an.CallsIn(fn, func(_ ssa.CallInstruction, ci an.CalleeInfo) bool {
 		return ci.FullName() == "("+pkgGraphql+".OperationContextMutator).MutateOperationContext"
 	}) {
 		n++
-		var dom *ssa.Store
+		var dom ssa.Instruction
 		for _, st := range coerced {
 			if an.Before(st, call) {
 				dom = st
+			}
+		}
+		for _, hc := range helperCalls {
+			if an.Before(hc, call) {
+				dom = hc
 			}
 		}
 		bad := ""
@@ -665,4 +690,48 @@ func c14GateSeesCoercedVariables(c *Ctx) {
 			c.R.Check(ok, "ComplexityLimit/variables", c.ipos(call), "Calculate receives opCtx.Variables", "complexity is computed with variables other than the operation context's coerced variables")
 		}
 	}
+}
+
+
+// storesCoercedVariables: on every path to a return with an empty error list... kept simple: h contains a store of
+// validator.VariableValues' first result into the Variables field of its parameter p, and no other store to that field.
+func storesCoercedVariables(h *ssa.Function, p *ssa.Parameter, depth int) bool {
+	found, other := false, false
+	for _, b := range h.Blocks {
+		for _, in := range b.Instrs {
+			st, ok := in.(*ssa.Store)
+			if !ok {
+				continue
+			}
+			fa, ok := st.Addr.(*ssa.FieldAddr)
+			if !ok || fieldNameOf(fa) != "Variables" || !an.SameVar(fa.X, p) {
+				continue
+			}
+			if cc := an.AllExtractOf(st.Val, 0); cc != nil && an.CalleeOf(cc).FullName() == pkgValidator+".VariableValues" {
+				// the store must dominate every return (the helper always coerces)
+				dom := true
+				for _, r := range an.Returns(h) {
+					if h.Recover != nil && r.Block() == h.Recover {
+						continue
+					}
+					// failing returns (a list that is non-empty by construction) make the caller stop; only the
+					// returns the caller continues after need the coercion
+					if n := len(r.Results); n > 0 {
+						if ne, _ := nonEmptyList(r, r.Results[n-1]); ne {
+							continue
+						}
+					}
+					if !an.Before(st, r) {
+						dom = false
+					}
+				}
+				if dom {
+					found = true
+				}
+			} else {
+				other = true
+			}
+		}
+	}
+	return found && !other
 }
